@@ -338,11 +338,12 @@ prop('C15', [
     state.r_norm,
     state.r_pair,
     misc.r_mdd_bits,
+    models.r_bdd_to_mdd,
 ],
     'MDD.apply interpreted per alias against the connectives and against '
     'BDD.apply; terminal cases of MDD.ite; sign in MDD._top_cofactor and '
     'in the edge map of bdd_to_mdd.',
-    'bit significance, zone selection, reorder to zones.',
+    'conversion of diagrams over more than three bits.',
     'abstract interpretation of dispatch tables; sign dataflow')
 prop('C16', [
     sign.r_sign,
@@ -478,7 +479,11 @@ MODEL_TEXT = {
     'C15': ' Models: `MDD.find_or_add`, `MDD._top_cofactor`, `MDD.ite` '
            'and `MDD.apply` on a diagram with a three-valued above a '
            'two-valued variable (710 calls against the values over all '
-           'six assignments); `incref` / `decref`.',
+           'six assignments); `incref` / `decref`; `bdd_to_mdd` with '
+           'collection, reordering and the MDD class interpreted (30 '
+           'conversions: both integer orders, three initial bit orders, '
+           'a zone node referenced from inside and from above its zone) '
+           'against the values on the encoded bits.',
     'C16': ' Models: `dddmp.load` on the output of the parser for five '
            'small files (levels with gaps, node numbers in no order, '
            'constant roots) against a strict reference manager; '
@@ -502,8 +507,8 @@ NOT_DECIDED = {
     'C10': 'counts and enumerations on diagrams beyond the '
            'three-variable models.',
     'C13': 'relations over more than two pairs.',
-    'C15': 'bdd_to_mdd: bit significance, zone selection, reorder to '
-           'zones.',
+    'C15': 'bdd_to_mdd on diagrams over more than three bits or more '
+           'than two integer variables.',
     'C16': 'the header grammar itself (PLY); .varinfo 2 and 4.',
     'C18': 'graph isomorphism of the networkx export; rendering.',
 }
